@@ -105,6 +105,37 @@ theorem reserve_covers_holdings (epoch block dsc maxApr minUnbond perBlock : Nat
     (run_boostInv ops (boostInv_init epoch block dsc maxApr minUnbond perBlock accts wl))
     (by show 0 < (run _ ops).dsc; rw [run_dsc]; exact hd) N
 
+/-- the ghost ledger of outstanding unbond amounts is exact: in every reachable state it equals the
+    units of all unbond tokens held by the accounts (minted by unstake, burned by unbond,
+    conserved by transfers) -/
+theorem unbond_ledger_exact (epoch block dsc maxApr minUnbond perBlock : Nat) (accts wl : List Nat)
+    (ops : List Op) :
+    let s := run (init epoch block dsc maxApr minUnbond perBlock accts wl) ops
+    s.unbondOut =
+      (((List.range (s.nonce + 1)).map fun n =>
+        match s.md n with
+        | some (.unbond _) => (s.accts.dedup.map fun a => s.hold a n).sum
+        | _ => 0).sum : Nat) :=
+  (run_unbInv ops (posInv_init epoch block dsc maxApr minUnbond perBlock accts wl)
+    (unbInv_init epoch block dsc maxApr minUnbond perBlock accts wl)).explicit
+
+/-- **principal backed, in terms of what is outstanding** (strengthens `principal_backed` of
+    Props/C05Staking.lean, which states it with the ghost ledger): the staking tokens the contract
+    holds beyond the capacity not yet accrued and the reserve are exactly the directly staked
+    principal (supply minus proxy-virtual stake) plus the units of all outstanding unbond tokens -/
+theorem principal_backed_outstanding (epoch block dsc maxApr minUnbond perBlock : Nat) (accts wl : List Nat)
+    (ops : List Op) :
+    let s := run (init epoch block dsc maxApr minUnbond perBlock accts wl) ops
+    (s.bal : Int) - ((s.capacity - s.accumulated : Nat) : Int) - s.reserve
+      = ((s.supply : Int) - s.virt) +
+        (((List.range (s.nonce + 1)).map fun n =>
+          match s.md n with
+          | some (.unbond _) => (s.accts.dedup.map fun a => s.hold a n).sum
+          | _ => 0).sum : Nat) :=
+  principal_explicit (run_inv ops (inv_init epoch block dsc maxApr minUnbond perBlock accts wl))
+    (run_unbInv ops (posInv_init epoch block dsc maxApr minUnbond perBlock accts wl)
+      (unbInv_init epoch block dsc maxApr minUnbond perBlock accts wl))
+
 /-- non-vacuity: two stakers, boosted percentage 25 %; user 1 claims the boosted rewards of week 1
     (the rest of that week's pool stays frozen in `remaining 1`), claims base rewards on half of its
     position in week 2, more rewards accrue in week 2 (`accumulated 2`).  Claimable base
